@@ -414,7 +414,6 @@ where
 /// # Panics
 /// Panics if:
 /// * `a` is zero;
-/// * `b` is zero;
 /// * `p.len()` is smaller than or equal to `a`.
 ///
 /// # Examples
@@ -461,7 +460,6 @@ where
 /// # Panics
 /// Panics if:
 /// * `a` is zero;
-/// * `b` is zero;
 /// * `p.len()` is smaller than or equal to `a`.
 ///
 /// # Examples
@@ -493,7 +491,6 @@ where
     E: FieldElement,
 {
     assert!(a != 0, "divisor degree cannot be zero");
-    assert!(b != E::ZERO, "constant cannot be zero");
     assert!(p.len() > a, "divisor degree cannot be greater than dividend size");
 
     if a == 1 {
